@@ -317,13 +317,23 @@ func readerSpaces() []*space {
 
 	// depth 2
 	l2 := reducedLeaves(4)
-	maxTop := 3
+	maxRefs := 2
+	if vk.Thorough() {
+		maxRefs = 3
+	}
 	subs1 := nodesOver(l2, 1, 2, false)
-	d2 := &space{name: "reader/depth2", leaves: l2, refs: refParts(subs1), minP: 1, maxP: maxTop, minRefs: 1, maxRefs: maxTop, rootTypes: []string{"file"}, subs: subs1,
-		bound: fmt.Sprintf("all trees of depth 2: root with 1..%d parts, each a leaf of {A[0:2],B[1:2],hole1,A[4:6]} or a bytesRef with ANY (offset,size>=1) sub-range of ANY bytes blob that has 1..2 such leaves; at least one bytesRef", maxTop)}
+	d2 := &space{name: "reader/depth2", leaves: l2, refs: refParts(subs1), minP: 1, maxP: 3, minRefs: 1, maxRefs: maxRefs, rootTypes: []string{"file"}, subs: subs1,
+		bound: fmt.Sprintf("all trees of depth 2: root with 1..3 parts, each a leaf of {A[0:2],B[1:2],hole1,A[4:6]} or a bytesRef with ANY (offset,size>=1) sub-range of ANY bytes blob that has 1..2 such leaves; 1..%d bytesRef parts", maxRefs)}
 	out = append(out, d2)
 
 	if vk.Thorough() {
+		// depth 2, wider alphabet (adds the whole 3-byte blob), at most 2 bytesRef parts
+		l2w := reducedLeaves(5)
+		subsW := nodesOver(l2w, 1, 2, false)
+		d2w := &space{name: "reader/depth2-wide", leaves: l2w, refs: refParts(subsW), minP: 1, maxP: 3, minRefs: 1, maxRefs: 2, rootTypes: []string{"file"}, subs: subsW,
+			bound: "all trees of depth 2: root with 1..3 parts, each a leaf of {A[0:2],B[1:2],hole1,A[4:6],B[0:3]} or a bytesRef with ANY sub-range of ANY bytes blob that has 1..2 such leaves; 1..2 bytesRef parts"}
+		out = append(out, d2w)
+
 		l3 := reducedLeaves(3)
 		s1 := nodesOver(l3, 1, 2, false)
 		mid := append(append([]*part(nil), l3...), refParts(s1)...)
@@ -421,6 +431,9 @@ type treeChecker struct {
 }
 
 func (tc *treeChecker) fail(site, class, what string) {
+	if class == knownClass {
+		site = "read" // one defect, one signature, whichever of ReadAt/Read/Seek shows it
+	}
 	k := site + "|" + class
 	if tc.seen[k] {
 		return
@@ -467,7 +480,7 @@ func (tc *treeChecker) check(n *node) {
 		tc.fail("Size", "wrong-size", fmt.Sprintf("Size()=%d, schema denotes %d bytes", fr.Size(), size))
 	}
 	// every (offset, length) ReadAt, including one past the end
-	buf := make([]byte, size+2)
+	buf := make([]byte, size+4)
 	for off := 0; off <= size+1; off++ {
 		for l := 0; off+l <= size+1 || l <= 1; l++ {
 			b := buf[:l]
@@ -650,11 +663,9 @@ func runReaderScenario(res *vk.Result, sp *space) {
 	dl := vk.Deadline()
 	reported := map[string]int{}
 	var knownTrees int64
-	for k := 0; k < sp.total; k++ {
-		if !vk.Mine(k) {
-			continue
-		}
-		if k&255 == 0 && time.Now().After(dl) {
+	si, sn := vk.Shard()
+	for k := si; k < sp.total; k += sn {
+		if sc.Executions&255 == 0 && time.Now().After(dl) {
 			sc.Exhaustive = false
 			sc.Note = fmt.Sprintf("deadline reached at tree %d of %d", k, sp.total)
 			break
